@@ -94,9 +94,9 @@ def expected(case):
         s = a[k]
         return -int(s[1:], 16) if s.startswith("-") else int(s, 16)
     try:
-        if op in ("uadd", "uadd_vv", "uadd_assign", "uadd_u32", "uadd_u64", "uadd_u128", "iadd", "iadd_vv", "iadd_vr", "iadd_rv", "iadd_assign", "iadd_i64"):
+        if op in ("uadd", "uadd_vv", "uadd_vr", "uadd_assign", "uadd_u32", "uadd_u64", "uadd_u128", "iadd", "iadd_vv", "iadd_vr", "iadd_rv", "iadd_assign", "iadd_i64"):
             return hx(I(0) + I(1))
-        if op in ("usub", "usub_rv", "usub_assign", "usub_u64", "u64_sub_u"):
+        if op in ("usub", "usub_rv", "usub_assign", "usub_u64", "u64_sub_u", "usub_u128"):
             return hx(I(0) - I(1)) if I(0) >= I(1) else "PANIC"
         if op in ("isub", "isub_vv", "isub_vr", "isub_rv", "isub_assign", "isub_i64", "i64_sub_i"):
             return hx(I(0) - I(1))
@@ -374,7 +374,15 @@ def lens(tier):
 
 
 def bank(pid, tier, seed):
-    rng = random.Random(seed * 7919 + hash(pid) % 1000)
+    if pid == "C14":
+        # "fails only in documented cases" spans the other properties' operations
+        out = bank("C14core", tier, seed)
+        for other in ("C01", "C06", "C07", "C05", "C11", "C12"):
+            out += bank(other, "quick", seed)[:40000]
+        return out
+    if pid == "C14core":
+        pid = "C14"
+    rng = random.Random(seed * 7919 + sum(map(ord, pid)))
     cases = []
     L = lens(tier)
     reps = 3 if tier == "quick" else 8
@@ -401,13 +409,18 @@ def bank(pid, tier, seed):
 
     if pid in ("C01", "C15"):
         for a, b in pairs(70 if tier == "quick" else None):
-            for op in ("uadd", "uadd_assign", "uadd_vv"):
+            for op in ("uadd", "uadd_assign", "uadd_vv", "uadd_vr"):
                 cases.append((op, hx(a), hx(b)))
+                cases.append((op, hx(b), hx(a)))
             for op in ("usub", "usub_rv", "usub_assign", "uchecked_sub"):
                 cases.append((op, hx(a), hx(b)))
                 cases.append((op, hx(b), hx(a)))
                 cases.append((op, hx(a + b), hx(b)))
                 cases.append((op, hx(a + b), hx(a)))
+            if b < (1 << 128):
+                cases.append(("uadd_u128", hx(a), hx(b)))
+                cases.append(("usub_u128", hx(a), hx(b)))
+                cases.append(("usub_u128", hx(0), hx(b)))
             if b < B64:
                 cases.append(("uadd_u64", hx(a), hx(b)))
                 cases.append(("usub_u64", hx(a), hx(b)))
